@@ -96,7 +96,7 @@ def check(rep, an, tier):
                 CC.dim1(rep, res, ent)
                 R.rule_purity(rep, res, ent)
                 F.qty(rep, res, ent, allow=allow, subs=("mismatch", "literal"))
-                R.rule_effect_free(rep, res, ent)
+                R.rule_effect_free(rep, res, ent, reg=_reg(an))
     rep.require("R-QTY", 10)
     rep.require("R-FLOW", 30)
     rep.require("R-FORWARD", 20)
@@ -125,3 +125,8 @@ def solver_residual_tolerance(rep, res, entry):
                   msg="membership on the fallback path is `np.isclose(residual norm, 0)` with the default atol=1e-8, but the residual is the "
                       "output of cvxpy's default QP solver, whose absolute accuracy is about 1e-5: captures produced by intensities strictly "
                       "inside the bounds are reported out of gamut (unbounded sources: 12–87 % accepted in an independent run-time probe)")
+
+
+def _reg(an):
+    from .C14 import registration_writes
+    return registration_writes(an)
